@@ -816,6 +816,8 @@ SORTS = [
     ("-%Size(), %Lower{%Name()}, %Name()", lambda n, s, d: (-s, n.lower(), n)),
     ("%Ext(), %Base()", lambda n, s, d: (PosixPath(n).suffix, PosixPath(n).stem)),
     ("str(%Dir()), %Name()", lambda n, s, d: (d, n)),
+    ("%Dir(), %Name()", lambda n, s, d: (PosixPath(d), n)),
+    ("%Dir().parts, %Size(), %Name()", lambda n, s, d: (PosixPath(d).parts, s, n)),
     ("%Name().count(chr(39)), %Name()", lambda n, s, d: (n.count("'"), n)),
 ]
 
@@ -836,6 +838,8 @@ def run_cli_case(case):
         ind = os.path.join(root, "in")
         os.mkdir(ind)
         os.mkdir(os.path.join(ind, "sub"))
+        for d in {d for d, _n, _s in case["names"]}:
+            os.makedirs(os.path.join(ind, d), exist_ok=True)
         for i, (d, n, size) in enumerate(case["names"]):
             p = os.path.join(os.fsencode(ind), os.fsencode(d), os.fsencode(n)) if d != "." else \
                 os.path.join(os.fsencode(ind), os.fsencode(n))
@@ -899,7 +903,9 @@ def gen_cli_case(rng, position):
                 n = s or "e"
             except UnicodeError:
                 pass
-        d = "sub" if rng.random() < 0.25 else "."
+        # directories whose names extend one another with characters that sort before and after '/': a path value
+        # compares component by component, its text does not
+        d = rng.choice(["sub", "sub", "sub-old", "sub/deep", "sub.d", "sub 1/x"]) if rng.random() < 0.3 else "."
         if n in seen or n in (".", "..") or len(os.fsencode(n)) > 200 or n.startswith("zzsel_") or n.startswith("zzord_"):
             continue
         seen.add(n)
@@ -910,8 +916,13 @@ def gen_cli_case(rng, position):
 
 def part_cli(chk, rng, n, stats):
     st = {"filter": 0, "sort": 0, "status": {}, "names_with_quote": 0, "names_with_canary_payload": 0, "non_utf8_names": 0}
-    for i in range(n):
-        case = gen_cli_case(rng, "filter" if i % 2 == 0 else "sort")
+    spread = [[d, nm, 6 + k] for k, (d, nm) in enumerate([("sub/deep", "a"), ("sub-old", "b"), ("sub.d", "c"), ("sub", "d"), (".", "e"),
+                                                            ("sub 1/x", "f"), ("sub/deep", "g'q"), ("sub-old", "h\"q")])]
+    fixed = [{"kind": "cli", "names": spread, "position": "sort", "expr": e, "invert": inv}
+             for e in ("%Dir(), %Name()", "%Dir().parts, %Size(), %Name()", "str(%Dir()), %Name()") for inv in (False, True)]
+    fixed += [{"kind": "cli", "names": spread, "position": "filter", "expr": "%Dir() == PosixPath('.')", "invert": False}]
+    for i in range(n + len(fixed)):
+        case = fixed[i] if i < len(fixed) else gen_cli_case(rng, "filter" if i % 2 == 0 else "sort")
         obs = run_cli_case(case)
         st[case["position"]] += 1
         st["status"][str(obs["status"])] = st["status"].get(str(obs["status"]), 0) + 1
